@@ -142,6 +142,23 @@ macro_rules! vec_num_extras {
         }
     };
 }
+/// the Array views of the vectors need only a Copy element (those of the points need a number)
+macro_rules! vec_copy_extras {
+    ($fname:ident, $base:ident, $V:ident, $n:expr, [$($f:ident),+]) => {
+        pub fn $fname<E: El>() -> Desc<$V<E>, E> {
+            let mut d = $base::<E>();
+            d.reads.push(("as_ptr", |v| { let p = Array::as_ptr(v); (0..$n).map(|i| unsafe { *p.add(i) }).collect() }));
+            d.writes.push(("as_mut_ptr", |v, i, e| { let p = Array::as_mut_ptr(v); unsafe { *p.add(i) = e } }));
+            d.swaps.push(("Array::swap_elements", |v, i, j| Array::swap_elements(v, i, j)));
+            d.reads.push(("len()", |v| { let l = <$V<E> as Array>::len(); if l == $n { vec![$(v.$f),+] } else { vec![] } }));
+            d
+        }
+    };
+}
+vec_copy_extras!(dc_v1, d_v1, Vector1, 1, [x]);
+vec_copy_extras!(dc_v2, d_v2, Vector2, 2, [x, y]);
+vec_copy_extras!(dc_v3, d_v3, Vector3, 3, [x, y, z]);
+vec_copy_extras!(dc_v4, d_v4, Vector4, 4, [x, y, z, w]);
 vec_num_extras!(dn_v1, d_v1, Vector1, 1, [x]);
 vec_num_extras!(dn_v2, d_v2, Vector2, 2, [x, y], conv: array2);
 vec_num_extras!(dn_v3, d_v3, Vector3, 3, [x, y, z], conv: array3);
